@@ -20,7 +20,7 @@ META = {
     "require": {t: ["format:nan", "format:tuple", "format:plain0", "cube:ccube", "cube:xcube",
                     "class:missing_in_common_category", "class:cols_different_patterns", "class:weights+facts_missing",
                     "cells:missing_by_value", "cells:missing_no_rows", "class:ignore", "class:propagate",
-                    "class:cell_counter_on_boundary", "class:more_than_1024_cells"]
+                    "class:cell_counter_on_boundary", "class:more_than_1024_cells", "class:cells_of_very_unequal_weight", "class:same_argument_objects_for_every_call"]
                 for t in ("quick", "thorough")},
     "assumptions": ["a sentinel is compared as cast to the result dtype (an integer result cannot hold 2.5)",
                     "valid_count with a plain replacement value under propagation is excluded as the property states"],
@@ -34,10 +34,23 @@ def shards(tier):
 
 
 def cases(ctx):
+    for i, c in enumerate(_cases(ctx)):
+        # every second case hands the SAME fact / weight objects to all of its calls (all aggregates, both cubes,
+        # the three report formats), as a caller who keeps its arrays around does
+        c["shared_args"] = bool(i % 2)
+        yield c
+
+
+def _cases(ctx):
     rng = ctx.rng
     for i in range(ctx.shard["n"]):
         if i % 40 == 29:
             c = aggr.many_cells_case(rng)
+            c["sentinel"] = gen.pick(rng, SENTINELS)
+            yield c
+            continue
+        if i % 40 == 31:
+            c = aggr.unequal_cells_case(rng)
             c["sentinel"] = gen.pick(rng, SENTINELS)
             yield c
             continue
@@ -70,6 +83,8 @@ def judge(ctx, case):
         ctx.count("class:cell_counter_on_boundary")
     if case.get("many_cells"):
         ctx.count("class:more_than_1024_cells")
+    if case.get("unequal_cells"):
+        ctx.count("class:cells_of_very_unequal_weight")
     if fx.ndim == 2 and len({fv[:, k].tobytes() for k in range(fv.shape[1])}) > 1:
         ctx.count("class:cols_different_patterns")
     if wv is not None and (~wv).any() and (~fv).any():
@@ -85,6 +100,9 @@ def judge(ctx, case):
         cubes.append(("xcube", catii.xcube([a.astype("int64") for a in dense], interacting_shape=exp_shape)))
     else:
         cubes.append(("xcube", catii.xcube([])))
+    shared = {} if case.get("shared_args") else None
+    if shared is not None:
+        ctx.count("class:same_argument_objects_for_every_call")
     for agg in aggr.SHARED:
         # 1e300 cannot be represented in an integer result at all (not even as a cast): only means are always float
         sentinel = case["sentinel"] if (agg == "mean" or case["sentinel"] != 1e300) else 1e15
@@ -104,7 +122,7 @@ def judge(ctx, case):
                     ctx.count("excluded:valid_count_plain_propagate")
                     continue
                 ctx.count("format:" + fmt)
-                res = aggr.call(cube, agg, case, rma)
+                res = aggr.call(cube, agg, case, rma, shared=shared)
                 ctx.evaluation({"c": {k: case[k] for k in ("dense", "commons", "shape", "fact", "weights", "ignore_missing")},
                                 "a": agg, "cube": cname, "fmt": fmt, "s": sentinel}, nt)
                 bad = oracles.compare(res, rma, ref_v, ref_m, tol)
